@@ -4,75 +4,11 @@ package main
 //
 //	bind <cfgbits> <T> <doc hex> <tags>
 //
-// = the shared `unm` (sonic + encoding/json on a fresh zero value of T), plus `flt=`: for every
-// number-shaped token of the document (inside string literals too, for `,string` fields) what
-// strconv.ParseFloat makes of it at 64 and 32 bits.  The Lean model takes this table as its float
-// oracle (the exact decimal→binary conversion belongs to C19's model), so it can decide
-// error-or-not for float destinations.  <tags> = features the generator put into the case.
-
-import (
-	"fmt"
-	"math"
-	"strconv"
-	"strings"
-)
-
-func isNumByte(c byte) bool {
-	return c >= '0' && c <= '9' || c == '-' || c == '+' || c == '.' || c == 'e' || c == 'E'
-}
-
-// floatTable lists "hexlit:bits64|x:bits32|x" for the distinct number-shaped tokens of doc
-func floatTable(doc []byte) string {
-	seen := map[string]bool{}
-	var out []string
-	i := 0
-	for i < len(doc) && len(out) < 96 {
-		if !isNumByte(doc[i]) {
-			i++
-			continue
-		}
-		j := i
-		for j < len(doc) && isNumByte(doc[j]) {
-			j++
-		}
-		tok := string(doc[i:j])
-		i = j
-		if seen[tok] || len(tok) > 400 {
-			continue
-		}
-		seen[tok] = true
-		hasDigit := false
-		for k := 0; k < len(tok); k++ {
-			if tok[k] >= '0' && tok[k] <= '9' {
-				hasDigit = true
-			}
-		}
-		if !hasDigit {
-			continue
-		}
-		e := hexArg([]byte(tok)) + ":"
-		if f, err := strconv.ParseFloat(tok, 64); err == nil {
-			e += fmt.Sprintf("%016x", math.Float64bits(f))
-		} else {
-			e += "x"
-		}
-		e += ":"
-		if f, err := strconv.ParseFloat(tok, 32); err == nil {
-			e += fmt.Sprintf("%08x", math.Float32bits(float32(f)))
-		} else {
-			e += "x"
-		}
-		out = append(out, e)
-	}
-	if len(out) == 0 {
-		return "-"
-	}
-	return strings.Join(out, ",")
-}
+// = the shared `unm` (sonic + encoding/json on a fresh zero value of T); <tags> = the features the
+// generator put into the case (used by the known-finding matchers and the evidence histogram).
 
 func init() {
 	registerOp("bind", func(a []string) string {
-		res := ops["unm"](a[:3])
-		return res + "\tflt=" + floatTable(unhexArg(a[2]))
+		return ops["unm"](a[:3])
 	})
 }
